@@ -110,6 +110,7 @@ def _worker(args):
         res["counts"][k] = res["counts"].get(k, 0) + n
     scns = extra if extra is not None else [gen(seed, i) for i in range(lo, hi)]
     for scn in scns:
+        common.note_inflight(scn)
         try:
             calls = run_scenario(S, scn)
         except S.SolverBudget:
@@ -165,8 +166,7 @@ def run(ck, n, extra=None):
         if len(chunks) == 1:
             results = [_worker(chunks[0])]
         else:
-            with multiprocessing.get_context("fork").Pool(len(chunks)) as pool:
-                results = pool.map(_worker, chunks)
+            results = common.pmap(_worker, chunks)
     for r in results:
         for k, v in r["counts"].items():
             ck.count(k, v)
